@@ -333,7 +333,9 @@ def run(tier, seed, replay):
         # assignment of methods
         ncover = 1500 if quick else len(cover)
         for i, sc in enumerate(cover[:ncover]):
-            ms = [METHODS[(i + seed) % 4]] if quick else METHODS
+            ms = [METHODS[(i + seed) % 4]]
+            if not quick and i % 2 == 0:
+                ms.append(METHODS[(i + seed + 2) % 4])
             for m in ms:
                 rows.append(with_method(sc, m, "cover%d-%s" % (i, m)))
         nsims = 500 if quick else 4000
